@@ -10,7 +10,10 @@ oracle      (a) the stored patch equals "two header lines replaced, every other 
             (b) tree after apply+undo == tree before (in-process)
             (c) CLI: rename / plan+apply / replace, then undo latest / undo <id> (and undo→redo→undo): whole-tree snapshot
                 (path, type, mode, bytes, link target) equal, undo exit 0
-Known findings are recognised by shape (guard clause + attribution of every differing path), anything else is a VIOLATION.
+Every undo that does not restore the tree exactly is a VIOLATION.  The shapes of the three defects repaired on 2026-09-29
+(unquoted header names, `exists()` guard on renamed symlinks, in-place write of read-only files) are still recognised so
+that the replay file says which repaired behaviour has returned; a shape only excuses a failure while it is a listed finding.
+The check sets umask 022 itself (modes such as 0664/0666/0775 must survive apply and undo exactly).
 """
 import glob
 import hashlib
@@ -105,7 +108,7 @@ def c01_tree(rng, swords, allow_bad=True, depth=3, max_entries=12, symlinks=True
             c = b"plain\n" if rng.random() < 0.5 else b""
         elif with_term_content is True and gen.render("snake", swords).encode() not in c:
             c = (gen.render("snake", swords) + " here\n").encode() + c
-        tree[rel] = ("f", c, rng.choice([0o644, 0o644, 0o600, 0o755, 0o444, 0o664]))
+        tree[rel] = ("f", c, rng.choice([0o644, 0o644, 0o600, 0o755, 0o444, 0o664, 0o666, 0o775, 0o640]))
 
     def fill(prefix, d):
         for _ in range(rng.randint(1, 4)):
@@ -117,7 +120,7 @@ def c01_tree(rng, swords, allow_bad=True, depth=3, max_entries=12, symlinks=True
                 rel = prefix + name
                 if not free(rel):
                     continue
-                tree[rel] = ("d", rng.choice([0o755, 0o755, 0o750, 0o700]))
+                tree[rel] = ("d", rng.choice([0o755, 0o755, 0o750, 0o700, 0o775]))
                 fill(rel + "/", d + 1)
             elif k < 0.47 and symlinks:
                 name = special_name(rng, swords, rng.random() < 0.3, allow_bad=allow_bad)
@@ -254,13 +257,32 @@ def classify_failure(before, after, edited, renames, rc_undo, readonly_user=Fals
 # -------------------------------------------------------------------------------------------------
 # (a) patch text
 
-def ref_rewrite(raw, a, b):
-    """independent reference for what the stored patch must be: the two header lines in front of the first hunk
-    carry the paths, every other byte of diffy's output is kept"""
-    i = raw.find(b"@@")
-    # diffy's header for create_patch is exactly two lines
-    assert raw.startswith(b"--- original\n+++ modified\n") and i == len(b"--- original\n+++ modified\n"), raw[:60]
-    return b"--- " + a + b"\n+++ " + b + b"\n" + raw[i:]
+def split_header(text):
+    """(header lines, body) — the body starts at the first line that begins with `@@`"""
+    if text.startswith(b"@@"):
+        return b"", text
+    i = text.find(b"\n@@")
+    if i < 0:
+        return text, b""
+    return text[:i + 1], text[i + 1:]
+
+
+def stored_ok(raw, stored, names):
+    """independent reference for what the stored patch must be: diffy's own parser reads the two paths back from the
+    header (`names` = real `pnames` answer for the stored text), the header is exactly a `--- ` and a `+++ ` line, and
+    every byte after it is diffy's output unchanged"""
+    rh, rbody = split_header(raw)
+    sh, sbody = split_header(stored)
+    if rh != b"--- original\n+++ modified\n":
+        return "raw header " + repr(rh)
+    hl = sh.split(b"\n")
+    if not (len(hl) == 3 and hl[2] == b"" and hl[0].startswith(b"--- ") and hl[1].startswith(b"+++ ")):
+        return "header is not a '--- ' line and a '+++ ' line: " + repr(sh)
+    if sbody != rbody:
+        return "a body byte changed"
+    if names is not None and not names[0]:
+        return "diffy does not read the paths back: " + names[1]
+    return None
 
 
 def mutate_patch(rng, raw):
@@ -372,7 +394,7 @@ def stored_patch_phase(ctx, rng, n):
         reqs.append(" ".join(["applypatches"] + gen.wire_tree(tree) + gen.wire_hunks(hunks) + gen.wire_rens(rens)))
         meta.append((tree, hunks, rens))
     impl = common.run_impl(reqs)
-    rw_reqs, rw_meta = [], []
+    rw_reqs, rw_meta, pn_reqs = [], [], []
     for req, line, (tree, hunks, rens) in zip(reqs, impl, meta):
         f = line.split(" ")
         ctx.count("stored:apply=" + f[0])
@@ -394,14 +416,20 @@ def stored_patch_phase(ctx, rng, n):
             n_patched += 1
             orig_b, cur_b, raw_b, stored_b = unhex(orig), unhex(cur), unhex(raw), unhex(stored)
             want_name = hashlib.sha256(orig_b).hexdigest() + ".patch"
-            ref = ref_rewrite(raw_b, cur_b, orig_b)
+            pn = common.run_impl([f"pnames {stored}"])[0]
+            want_pn = f"ok s{hexs(cur_b)} s{hexs(orig_b)}"
+            prob = stored_ok(raw_b, stored_b, (pn == want_pn, pn))
             ctx.case(("stored", stored_b), nontrivial=True)
-            if name != want_name or stored_b != ref:
-                # oracle: the stored patch is not "headers replaced, body kept"
+            if has_bad_header_byte(cur_b.decode("utf-8", "surrogateescape")) or has_bad_header_byte(orig_b.decode("utf-8", "surrogateescape")):
+                ctx.count("stored:quoted_header")
+            pn_reqs.append(f"pnames {stored}")
+            if name != want_name or prob:
+                # oracle: the stored patch is not "headers carry the paths, body kept"
                 ctx.violation("input", {"op": "applypatches", "request": req, "file": orig_b},
-                              expected={"name": want_name, "text": ref}, observed={"name": name, "text": stored_b},
-                              note="stored reverse patch differs from diffy's output with only the two header lines replaced "
-                                   "(a body line was rewritten or a header was not)")
+                              expected={"name": want_name, "names": want_pn, "body": "as in create_patch(cur, orig)"},
+                              observed={"name": name, "text": stored_b, "problem": prob},
+                              note="stored reverse patch: " + (prob or "wrong file name")
+                                   + " (a body line was rewritten, a header was not, or diffy cannot read the header back)")
                 return False
             rw_reqs.append(f"rewrite {raw} {cur} {orig}"); rw_meta.append(stored)
             if orig_b.decode("utf-8", "replace") not in edited:
@@ -416,6 +444,8 @@ def stored_patch_phase(ctx, rng, n):
                           {"request": r[:600], "impl": stored[:300], "model": m[:300]})
                 break
         ctx.sample({"op": "rewrite", "request": rw_reqs[0][:200], "stored": rw_meta[0][:160]})
+    if pn_reqs:
+        common.correspond(ctx, "header names: diffy parse of the stored patch vs Patch.parse", pn_reqs)
     return True
 
 
@@ -648,17 +678,6 @@ def cli_scenario(rng, i):
     else:
         repl = gen.render(rng.choice(["snake", "camel", "kebab"]), rw)
     tree = c01_tree(rng, sw, allow_bad=(i % 4 == 3))
-    if mode.startswith("replace"):
-        # the `replace` planner only yields an applicable plan when every match is on the first line (C03's finding)
-        t2 = {}
-        for rel, n in tree.items():
-            if n[0] == "f":
-                first = n[1].split(b"\n", 1)[0].replace(b"\r", b"")
-                rest = b"\nsecond line\r\n-- tail" if rng.random() < 0.5 else b""
-                t2[rel] = ("f", first + rest, n[2])
-            else:
-                t2[rel] = n
-        tree = t2
     common_flags = ["--no-auto-init"]
     if mode == "rename":
         apply = [["rename", search, repl, "-y", "--quiet"] + common_flags]
@@ -676,7 +695,7 @@ def cli_scenario(rng, i):
 
 
 def fixed_scenarios():
-    """hand-written shapes: the two repaired defects (must stay repaired) and the listed findings"""
+    """hand-written shapes: the repaired defects (must stay repaired: `fixed_*`) and further hostile shapes"""
     T = lambda d: {k: (["f", v[0].hex(), v[1]] if isinstance(v, tuple) else v) for k, v in d.items()}
     rn = lambda a, b: [["rename", a, b, "-y", "--quiet", "--no-auto-init"]]
     return [
@@ -688,23 +707,29 @@ def fixed_scenarios():
                                                 "foo_bar/foo_bar/other.txt": (b"fooBar", 0o644),
                                                 "foo_bar/foo_bar/foo_bar_only.md": (b"", 0o755)}),
          "apply": rn("foo_bar", "baz_qux"), "undo": "id", "redo": True},
-        {"name": "unquoted_header", "witness": "unquoted_header",
+        {"name": "fixed_unquoted_header",
          "tree": T({'say "foo_bar".txt': (b"say foo_bar\n", 0o644), "plain.txt": (b"foo_bar\n", 0o644)}),
          "apply": rn("foo_bar", "baz_qux"), "undo": "latest"},
-        {"name": "unquoted_header_backslash_dir", "witness": "unquoted_header",
+        {"name": "fixed_unquoted_header_backslash_dir",
          "tree": T({"a\\b": ["d", 0o755], "a\\b/notes.txt": (b"foo_bar\n", 0o644)}),
          "apply": rn("foo_bar", "baz_qux"), "undo": "latest"},
-        {"name": "symlink_exists_guard", "witness": "symlink_exists_guard",
+        {"name": "fixed_symlink_exists_guard",
          "tree": T({"foo_bar_dangling": ["l", "nowhere"], "keep.txt": (b"foo_bar\n", 0o644)}),
          "apply": rn("foo_bar", "baz_qux"), "undo": "latest"},
-        {"name": "symlink_exists_guard_sibling", "witness": "symlink_exists_guard",
+        {"name": "fixed_symlink_exists_guard_sibling",
          "tree": T({"foo_bar-link": ["l", "foo_bar.txt"], "foo_bar.txt": (b"tgt\n", 0o644)}),
          "apply": rn("foo_bar", "baz_qux"), "undo": "latest"},
-        {"name": "readonly_inplace_write", "witness": "readonly_inplace_write", "as_user": True,
+        {"name": "fixed_readonly_inplace_write", "as_user": True,
          "tree": T({"ro.txt": (b"ro foo_bar\n", 0o444), "rw.txt": (b"rw foo_bar\n", 0o644)}),
          "apply": rn("foo_bar", "baz_qux"), "undo": "latest"},
         {"name": "readonly_as_root", "tree": T({"ro.txt": (b"ro foo_bar\n", 0o444), "foo_bar": ["d", 0o555],
                                                "foo_bar/x.txt": (b"foo_bar", 0o400)}),
+         "apply": rn("foo_bar", "baz_qux"), "undo": "latest"},
+        {"name": "fixed_group_writable_modes",
+         "tree": T({"g.txt": (b"g foo_bar\n", 0o664), "w.txt": (b"w foo_bar\r\n", 0o666), "x foo_bar.sh": (b"#!/bin/sh\nfoo_bar\n", 0o775),
+                    "foo_bar": ["d", 0o775], "foo_bar/p.txt": (b"foo_bar", 0o640), "foo_bar/t.txt": (b"foo_bar", 0o600)}),
+         "apply": rn("foo_bar", "baz_qux"), "undo": "latest", "redo": True},
+        {"name": "fixed_newline_in_name", "tree": T({"nl\nfoo_bar\rx.txt": (b"foo_bar\n", 0o644)}),
          "apply": rn("foo_bar", "baz_qux"), "undo": "latest"},
         {"name": "names_space_tab_unicode", "tree": T({"my foo_bar file.txt": (b"foo_bar\n", 0o644),
                                                       "tab\tfoo_bar.txt": (b"fooBar\n", 0o644),
@@ -770,8 +795,9 @@ def run(ctx):
                        "was changed by apply; distinct = distinct request / scenario")
     ctx.assumptions += ["diffy: apply(create_patch(a,b),a) = b (hypothesis of the theorems; exercised on every generated pair)",
                         "POSIX rename semantics as in RModel.Model.Fs; no symlinked directory inside a planned path",
-                        "umask 022 for the mode of a new .rej file (model only)",
+                        "umask 022 (set by the check) for the mode of a new .rej file",
                         "sha256 injective on the paths of one plan (patch file names)"]
+    os.umask(0o022)          # the expected modes do not depend on the caller's umask
     ctx.prove("RModel.Props.C01")
     ok, msg = common.cargo_build()
     if not ok:
@@ -797,6 +823,7 @@ def run(ctx):
 
 
 def replay(ctx, path):
+    os.umask(0o022)
     obj = json.load(open(path))
     case = obj.get("case", obj)
     ok, msg = common.cargo_build()
@@ -840,9 +867,11 @@ def replay(ctx, path):
                 if len(parts) != 5:
                     continue
                 name, stored, orig, cur, raw = parts
-                ref = ref_rewrite(unhex(raw), unhex(cur), unhex(orig))
-                if unhex(stored) != ref or name != hashlib.sha256(unhex(orig)).hexdigest() + ".patch":
-                    ctx.violation("input", case, expected={"text": ref}, observed={"name": name, "text": unhex(stored)})
+                pn = common.run_impl([f"pnames {stored}"])[0]
+                prob = stored_ok(unhex(raw), unhex(stored), (pn == f"ok s{cur} s{orig}", pn))
+                if prob or name != hashlib.sha256(unhex(orig)).hexdigest() + ".patch":
+                    ctx.violation("input", case, expected="headers carry the paths, body kept",
+                                  observed={"name": name, "text": unhex(stored), "problem": prob})
                     break
     else:
         print(json.dumps(obj, indent=1, default=common._jd)[:2000])
